@@ -115,7 +115,7 @@ def main():
         chk.sample({"schema": cj[len(cj) // 2]["text"], "op": cj[len(cj) // 2]["ops"][0]})
     chk.assumptions += ["strict-aliasing / unaligned-access UB of the generated casts is not checked (ASan only)",
                         "little-endian host: 'foreign' = big-endian"]
-    return chk.finish(level="exploration")
+    return chk.finish(level="proof")
 
 
 if __name__ == "__main__":
